@@ -433,8 +433,13 @@ def run_check(pid, cfg, tier, seed, work, a, t0):
                 # only data races that touch the code this property is about count; others are
                 # recorded in the evidence as observations
                 blocks = [b for b in txt.split("==================") if "WARNING: DATA RACE" in b]
-                rel = [b for b in blocks if flt in b]
-                other_races.extend(summarize_race(b) for b in blocks if flt not in b)
+                # a report is relevant when the function performing one of the two accesses (the top frame of an
+                # access stack, not merely a caller) matches the filter
+                def relevant(block):
+                    tops = re.findall(r"^(?:Read|Write|Previous read|Previous write) at .*\n  (\S+)", block, re.M)
+                    return any(re.search(flt, t0) for t0 in tops)
+                rel = [b for b in blocks if relevant(b)]
+                other_races.extend(summarize_race(b) for b in blocks if not relevant(b))
                 if not rel:
                     continue
                 txt = "==================".join(rel)
